@@ -23,6 +23,13 @@ def main(argv: list[str]) -> int:
     tier = argv[1] if len(argv) > 1 else os.environ.get("VERIF_TIER", "quick")
     if tier not in ("quick", "thorough"):
         tier = "quick"
+    # two invocations for the same property (quick and thorough, or the same command twice) share work/<ID> and the evidence file:
+    # the second waits for the first
+    import fcntl
+    from .core import VERIF
+    (VERIF / "work").mkdir(exist_ok=True)
+    lock = open(VERIF / "work" / f".{pid}.lock", "w")
+    fcntl.flock(lock, fcntl.LOCK_EX)
     ctx = Ctx(pid, tier)
     try:
         ok, out = coq.build_lib()
